@@ -295,6 +295,7 @@ var specC30p = vstat.Spec[c30pCase]{
 	Gen:         genC30p,
 	Check:       checkC30p,
 	Inflight:    true,
+	Confirm:     true,
 }
 
 func TestC30Pair(t *testing.T)       { vstat.Check(t, specC30p) }
